@@ -12,7 +12,7 @@ from vf.hlib.stubs import FakeFS, MemStore, is_plain_data, make_type_nt
 
 ENC = ["cincoconfig.core.Config.to_tree", "cincoconfig.core.Config.load_tree"]
 KEYPATH = "/k/app.key"
-KEY = bytes(range(1, 33))
+KEY = bytes(range(1, 32)) + b"\n"      # a valid key whose last byte is a line feed (key files are binary)
 BYTES = (b"", b"\x00", b"\xfe\xff", b"abc", b"YWJj")
 TEXTS = ("", "a", "Zm9v", "with space", "ünï-" + "long secret beyond one key length " * 2)
 
@@ -358,3 +358,38 @@ def file_route_every_length(n: int, use_pickle: bool) -> bool:
             ok = err is None and asdict(fresh) == asdict(cfg)
         hold("file", ok, lambda: "%s file with a %d-character value does not load back: %r" % (fmt, len(pad), err))
     return True
+
+
+# --------------------------------------------------------------------------- fields that carry an environment name
+@obligation(prop="C02", sites=("reload",), stubs=("FakeFS", "MemFormat", "FakeEnviron"), budget={"quick": 120, "thorough": 240},
+            encodes=ENC + ["cincoconfig.core.Config.load_tree"],
+            what="schemas with an environment prefix (every field gets a variable NAME) while the variables are unset "
+                 "or defined but EMPTY (symbolic, per field): values that differ from the defaults, at the root, "
+                 "nested and in list items, are reproduced by save + reload (an empty variable is no binding)")
+def env_named_fields_reload(root_state: int, nested_state: int, x: int) -> bool:
+    """
+    pre: 0 <= root_state <= 1 and 0 <= nested_state <= 1 and 0 <= x <= 9
+    post: _
+    """
+    from vf.hlib.stubs import fake_environ
+    environ = {}
+    if root_state == 1:
+        environ["APP_PORT"] = ""
+    if nested_state == 1:
+        environ["APP_DB_HOST"] = ""
+        environ["APP_TITLE"] = ""
+    with fake_environ(environ):
+        item = Schema()
+        item.n = IntField(default=0)
+        schema = Schema(env="APP")
+        schema.port = IntField(default=80)
+        schema.title = StringField(default="t")
+        schema.db.host = StringField(default="localhost")
+        schema.rows = ListField(item, default=lambda: [])
+
+        def fill(cfg):
+            cfg.port = 8000 + x
+            cfg.title = "custom"
+            cfg.db.host = "db.example"
+            cfg.rows = [{"n": x}]
+        return _roundtrip(schema, fill)
